@@ -20,7 +20,8 @@ from zivc.core import *  # noqa
 from zivc.spec import Loop, Proc, Registry
 from zivc import symex
 
-FIELDS = {'_cache': DICT, '_mcache': DICT, '_scache': DICT, '$epoch': z3.ArraySort(Obj, z3.IntSort())}
+FIELDS = {'_cache': DICT, '_mcache': DICT, '_scache': DICT, '$epoch': z3.ArraySort(Obj, z3.IntSort()),
+          '$getcache_calls': z3.ArraySort(Obj, z3.IntSort())}
 reg = Registry(FIELDS)
 L = Length
 A = 'adapter.py:'
@@ -136,7 +137,25 @@ def _gc_post(c):
                 z3.And(z3.Not(c.h0('$alloc')[o]), c.h('$alloc')[o], M(c)[o][k] != ABSENT),
                 z3.And(o == node1(c, p), k == n, truthy(n), z3.Not(c.h0('$alloc')[M(c)[o][k]]))), [M(c)[o][k]])),
             ('allocation-only-grows', ForAllP([o], z3.Implies(c.h0('$alloc')[o], c.h('$alloc')[o]), [c.h('$alloc')[o]])),
+            ('counted', ForAllP([o], c.h('$getcache_calls')[o] == c.h0('$getcache_calls')[o] + z3.If(o == c.a.self, 1, 0), [c.h('$getcache_calls')[o]])),
             ] + [('tree:' + lbl, f) for lbl, f in tree_wf(c)] + [('cache-stays-sound', sound(c, epoch(c))), ('multi-caches-stay-sound', sound_multi(c, epoch(c)))]
+
+
+def gc_calls(c, now=True):
+    """ghost: how often self._getcache ran.  _getcache is the virtual method through which VerifyingBase (which overrides it
+    to verify the generation snapshot first) sees every access of lookup/lookup1/adapter_hook/queryAdapter to the caches; an
+    entry point that reads self._cache directly bypasses that check."""
+    return (c.h if now else c.h0)('$getcache_calls')[c.a.self]
+
+
+def through_getcache(c):
+    return ('the-caches-are-reached-through-the-virtual-_getcache', gc_calls(c) >= gc_calls(c, False) + 1)
+
+
+def _count_getcache(ex, st):
+    s = ex.args['self'].t
+    g = st.heap.get('$getcache_calls')
+    st.heap.set('$getcache_calls', z3.Store(g, s, z3.Select(g, s) + 1))
 
 
 def _gc_pre(c):
@@ -159,8 +178,8 @@ def _tag_multi(k):
 
 
 reg.add(Proc(A + 'LookupBase._getcache', [('self', OBJ), ('provided', OBJ), ('name', OBJ)], source='adapter.py:LookupBase._getcache',
-             result=DICT, locals={'cache': DICT, 'c': DICT, '$objdict': True, '$on_alloc': _tag_getcache}, modifies=['$dict', '$alloc'],
-             requires=_gc_pre, ensures=_gc_post))
+             result=DICT, locals={'cache': DICT, 'c': DICT, '$objdict': True, '$on_alloc': _tag_getcache}, modifies=['$dict', '$alloc', '$getcache_calls'],
+             requires=_gc_pre, ensures=_gc_post, on_entry=_count_getcache))
 
 
 # ------------------------------------------------------------------ the uncached search as seen by the cache layer (virtual, may re-enter)
@@ -195,7 +214,8 @@ def _uncached_post(which):
                 ForAllP([o], z3.Implies(c.h0('$alloc')[o], c.h('$alloc')[o]), [c.h('$alloc')[o]]),
                 c.res != ABSENT, c.res != NOTIN,
                 z3.And(c.h('_cache') == c.h0('_cache'), c.h('_mcache') == c.h0('_mcache'), c.h('_scache') == c.h0('_scache')),
-                ForAllP([o], z3.Implies(o != c.a.self, c.h('$epoch')[o] == c.h0('$epoch')[o]), [c.h('$epoch')[o]])]
+ ForAllP([o], z3.Implies(o != c.a.self, c.h('$epoch')[o] == c.h0('$epoch')[o]), [c.h('$epoch')[o]]),
+                ForAllP([o], c.h('$getcache_calls')[o] >= c.h0('$getcache_calls')[o], [c.h('$getcache_calls')[o]])]
     return post
 
 
@@ -219,7 +239,7 @@ def sound_multi(c, e, now=True):
 
 for which in ('lookup', 'lookupAll', 'subscriptions'):
     params = [('self', OBJ), ('required', SEQO), ('provided', OBJ)] + ([('name', OBJ)] if which == 'lookup' else [])
-    reg.add(Proc(A + 'virtual._uncached_' + which, params, result=OBJ, modifies=['$dict', '$alloc', '$epoch'],
+    reg.add(Proc(A + 'virtual._uncached_' + which, params, result=OBJ, modifies=['$dict', '$alloc', '$epoch', '$getcache_calls'],
                  ensures=_uncached_post(which),
                  note='the uncached search (AdapterLookupBase._uncached_%s, verified under C04/C07/C08) as seen by the cache layer: it may '
                       're-enter the registry; without an invalidation nothing changes and the answer is the one of the current state, '
@@ -244,7 +264,7 @@ def _lookup_post(c):
                 c.res == z3.If(cached == NONE, c.a.default, cached), e1 == e0))),
             ('otherwise-the-answer-of-the-uncached-search-None-meaning-default', z3.Implies(z3.And(z3.Not(hit), e1 == e0),
                 c.res == z3.If(U(e0, p, n, key) == NONE, c.a.default, U(e0, p, n, key)))),
-            ('epoch-only-advances', e1 >= e0)]
+            ('epoch-only-advances', e1 >= e0), through_getcache(c)]
 
 
 def lookup_pre(c):
@@ -256,7 +276,7 @@ def lookup_pre(c):
 reg.add(Proc(A + 'LookupBase.lookup', [('self', OBJ), ('required', SEQO), ('provided', OBJ), ('name', OBJ), ('default', OBJ)],
              source='adapter.py:LookupBase.lookup', result=OBJ, globals={'_not_in_mapping': V(OBJ, NOTIN)},
              calls={'self._getcache': A + 'LookupBase._getcache', 'self._uncached_lookup': A + 'virtual._uncached_lookup'},
-             locals={'cache': DICT, '$nomerge': True}, modifies=['$dict', '$alloc', '$epoch'],
+             locals={'cache': DICT, '$nomerge': True}, modifies=['$dict', '$alloc', '$epoch', '$getcache_calls'],
              requires=lookup_pre,
              raises={'ValueError': (lambda c: z3.Not(is_name(c.a.name)),
                                     lambda c: [('nothing-touched', z3.And(M(c) == M(c, False), epoch(c) == epoch(c, False)))])},
@@ -287,11 +307,11 @@ def multi_pre(c):
 reg.add(Proc(A + 'LookupBase.lookupAll', [('self', OBJ), ('required', SEQO), ('provided', OBJ)], source='adapter.py:LookupBase.lookupAll',
              result=OBJ, globals={'_not_in_mapping': V(OBJ, NOTIN)}, calls={'self._uncached_lookupAll': A + 'virtual._uncached_lookupAll'},
              locals={'cache': DICT, '$nomerge': True, '$on_alloc': _tag_multi(KM), '$dict_may_be_none': False},
-             modifies=['$dict', '$alloc', '$epoch'], requires=multi_pre, ensures=_multi_post('_mcache', UA)))
+             modifies=['$dict', '$alloc', '$epoch', '$getcache_calls'], requires=multi_pre, ensures=_multi_post('_mcache', UA)))
 reg.add(Proc(A + 'LookupBase.subscriptions', [('self', OBJ), ('required', SEQO), ('provided', OBJ)], source='adapter.py:LookupBase.subscriptions',
              result=OBJ, globals={'_not_in_mapping': V(OBJ, NOTIN)}, calls={'self._uncached_subscriptions': A + 'virtual._uncached_subscriptions'},
              locals={'cache': DICT, '$nomerge': True, '$on_alloc': _tag_multi(KS)},
-             modifies=['$dict', '$alloc', '$epoch'], requires=multi_pre, ensures=_multi_post('_scache', US)))
+             modifies=['$dict', '$alloc', '$epoch', '$getcache_calls'], requires=multi_pre, ensures=_multi_post('_scache', US)))
 
 
 # ------------------------------------------------------------------ single-required entry points (C08: they agree with lookup())
@@ -324,7 +344,7 @@ def single_pre(c, key):
 def invariants_kept(c):
     e1 = epoch(c)
     return [('caches-stay-sound', z3.And(sound(c, e1), sound_multi(c, e1)))] + [('tree:' + lbl, f) for lbl, f in tree_wf(c)] + \
-        [('epoch-only-advances', e1 >= epoch(c, False))]
+        [('epoch-only-advances', e1 >= epoch(c, False)), through_getcache(c)]
 
 
 def _lookup1_post(c):
@@ -351,7 +371,7 @@ def _call_lookup_1tuple(ex, node, st):
 reg.add(Proc(A + 'LookupBase.lookup1', [('self', OBJ), ('required', OBJ), ('provided', OBJ), ('name', OBJ), ('default', OBJ)],
              source='adapter.py:LookupBase.lookup1', result=OBJ, globals={'_not_in_mapping': V(OBJ, NOTIN)},
              calls={'self._getcache': A + 'LookupBase._getcache', 'self.lookup': _call_lookup_1tuple},
-             locals={'cache': DICT, '$nomerge': True}, modifies=['$dict', '$alloc', '$epoch'],
+             locals={'cache': DICT, '$nomerge': True}, modifies=['$dict', '$alloc', '$epoch', '$getcache_calls'],
              requires=lambda c: single_pre(c, c.a.required), raises=_value_error, ensures=_lookup1_post))
 
 
@@ -391,12 +411,12 @@ HOOK_CALLS = {'self._getcache': A + 'LookupBase._getcache', 'self.lookup': _call
 reg.add(Proc(A + 'LookupBase.adapter_hook', [('self', OBJ), ('provided', OBJ), ('object', OBJ), ('name', OBJ), ('default', OBJ)],
              source='adapter.py:LookupBase.adapter_hook', result=OBJ, globals={'_not_in_mapping': V(OBJ, NOTIN)},
              calls=HOOK_CALLS, opaque_calls={'factory': _ext_factory},
-             locals={'cache': DICT, '$nomerge': True}, modifies=['$dict', '$alloc', '$epoch'],
+             locals={'cache': DICT, '$nomerge': True}, modifies=['$dict', '$alloc', '$epoch', '$getcache_calls'],
              requires=lambda c: single_pre(c, PB(c.a.object)),
              raises=_value_error, may_raise=['OtherError'], ensures=_hook_post))
 
 reg.add(Proc(A + 'LookupBase.queryAdapter', [('self', OBJ), ('object', OBJ), ('provided', OBJ), ('name', OBJ), ('default', OBJ)],
              source='adapter.py:LookupBase.queryAdapter', result=OBJ,
-             calls={'self.adapter_hook': A + 'LookupBase.adapter_hook'}, modifies=['$dict', '$alloc', '$epoch'],
+             calls={'self.adapter_hook': A + 'LookupBase.adapter_hook'}, modifies=['$dict', '$alloc', '$epoch', '$getcache_calls'],
              requires=lambda c: single_pre(c, PB(c.a.object)),
              raises=_value_error, may_raise=['OtherError'], ensures=_hook_post))
